@@ -129,6 +129,11 @@ func (g *gen) shape(small bool) Shape {
 			sh.R = 2
 		}
 	}
+	if r.Chance(0.04) {
+		// special coordinate values: the origin, the antimeridian, the poles
+		sh.Cx = r.PickF(0, 180, -180, 0, 90)
+		sh.Cy = r.PickF(0, 90, -90, 0, 45)
+	}
 	return sh
 }
 
@@ -152,6 +157,10 @@ func (g *gen) recipe(kind string, depth int, small bool) Recipe {
 			rc.Dims = 0
 		} else if r.Chance(0.15) {
 			rc.Members = geomMembers[r.Intn(len(geomMembers))]
+		}
+		if kind == "Point" && r.Chance(0.04) {
+			rc.Shape.Units = "null-x" // JSON null coordinate: parsed as NaN
+			rc.Via = "parse"
 		}
 	case "LineString":
 		if r.Chance(0.1) {
@@ -686,7 +695,12 @@ func (g *gen) duel(s *Spec) {
 		// shifted a little so that the two overlap without being equal
 		sib := *cloneRecipe(&s.Pool[h1])
 		if r.Chance(0.7) {
-			shiftRecipe(&sib, r.Coord(-2, 2), r.Coord(-2, 2))
+			if r.Chance(0.5) {
+				// whole units: lattice shapes then share exact vertices and edges
+				shiftRecipe(&sib, float64(r.Range(-2, 2)), float64(r.Range(-2, 2)))
+			} else {
+				shiftRecipe(&sib, r.Coord(-2, 2), r.Coord(-2, 2))
+			}
 		}
 		s.Pool = append(s.Pool, sib)
 		h2 = len(s.Pool) - 1
